@@ -69,7 +69,82 @@ func StrLit(s string) T {
 	return T{b.String(), SStr}
 }
 
+// ctorArgs splits "(ctor a b c)" into its arguments when s is an application of ctor.
+func ctorArgs(s, ctor string) []string {
+	if !strings.HasPrefix(s, "("+ctor+" ") || !strings.HasSuffix(s, ")") {
+		return nil
+	}
+	body := s[len(ctor)+2 : len(s)-1]
+	var out []string
+	depth, start := 0, 0
+	inStr := false
+	for i := 0; i < len(body); i++ {
+		c := body[i]
+		if inStr {
+			if c == '"' {
+				inStr = false
+			}
+			continue
+		}
+		switch c {
+		case '"':
+			inStr = true
+		case '(':
+			depth++
+		case ')':
+			depth--
+		case ' ':
+			if depth == 0 {
+				if i > start {
+					out = append(out, body[start:i])
+				}
+				start = i + 1
+			}
+		}
+	}
+	if start < len(body) {
+		out = append(out, body[start:])
+	}
+	return out
+}
+
+var selectorOf = map[string]struct {
+	ctor string
+	idx  int
+	n    int
+}{
+	"sarr": {"mk_slice", 0, 4}, "soff": {"mk_slice", 1, 4}, "slen": {"mk_slice", 2, 4}, "scap": {"mk_slice", 3, 4},
+	"ity": {"mk_iface", 0, 2}, "ival": {"mk_iface", 1, 2},
+}
+
 func app(sort Sort, op string, args ...T) T {
+	if sel, ok := selectorOf[op]; ok && len(args) == 1 {
+		if as := ctorArgs(args[0].S, sel.ctor); len(as) == sel.n {
+			return T{as[sel.idx], sort}
+		}
+		switch args[0].S {
+		case "nil_slice":
+			return T{"0", sort}
+		case "nil_iface":
+			return T{"0", sort}
+		}
+	}
+	if op == "elemOf" && len(args) == 1 {
+		if as := ctorArgs(args[0].S, "ptrTo"); len(as) == 1 {
+			return T{as[0], sort}
+		}
+	}
+	if op == "+" && len(args) == 2 {
+		if args[0].S == "0" {
+			return args[1]
+		}
+		if args[1].S == "0" {
+			return args[0]
+		}
+	}
+	if op == "-" && len(args) == 2 && args[1].S == "0" {
+		return args[0]
+	}
 	var b strings.Builder
 	b.WriteByte('(')
 	b.WriteString(op)
@@ -144,9 +219,24 @@ func Implies(a, b T) T {
 	return app(SBool, "=>", a, b)
 }
 
+func isNumeral(s string) bool {
+	if s == "" {
+		return false
+	}
+	for _, c := range s {
+		if c < '0' || c > '9' {
+			return false
+		}
+	}
+	return true
+}
+
 func Eq(a, b T) T {
 	if a.S == b.S {
 		return True
+	}
+	if isNumeral(a.S) && isNumeral(b.S) {
+		return False
 	}
 	return app(SBool, "=", a, b)
 }
@@ -247,6 +337,8 @@ type SolverResult struct {
 	Seconds float64
 	Output  string // raw output (model or error text)
 	All     map[string]string
+	Relaxed string
+	FailedPart int
 }
 
 type solverDef struct {
@@ -329,7 +421,50 @@ func Discharge(dir, name, decls string, assumptions []T, goal T, timeoutS int, a
 	if err := os.WriteFile(file, []byte(b.String()), 0o644); err != nil {
 		return SolverResult{Verdict: "error", Output: err.Error()}
 	}
-	return solveFile(file, timeoutS, all)
+	// Stage 1: quantifier-free relaxation (quantified assumptions and axioms
+	// dropped).  Fewer assumptions: `unsat` here implies `unsat` of the full
+	// query; `sat` only yields a candidate model.
+	var rb strings.Builder
+	rb.WriteString(smtHeader)
+	rb.WriteString(dropQuantified(decls))
+	rb.WriteByte('\n')
+	for _, a := range assumptions {
+		if a.S == "true" || strings.Contains(a.S, "forall") || strings.Contains(a.S, "exists") {
+			continue
+		}
+		rb.WriteString("(assert ")
+		rb.WriteString(a.S)
+		rb.WriteString(")\n")
+	}
+	relaxedModel := ""
+	if !strings.Contains(goal.S, "forall") && !strings.Contains(goal.S, "exists") {
+		rb.WriteString("(assert (not ")
+		rb.WriteString(goal.S)
+		rb.WriteString("))\n(check-sat)\n(get-model)\n")
+		rfile := filepath.Join(dir, sanitize(name)+".qf.smt2")
+		if err := os.WriteFile(rfile, []byte(rb.String()), 0o644); err == nil {
+			t := timeoutS
+			if t > 5 {
+				t = 5
+			}
+			v, o, secs := runSolver(context.Background(), solvers[0], rfile, t)
+			if v == "unsat" {
+				return SolverResult{Verdict: "unsat", Solver: solvers[0].name + "(qf-relaxed)", Seconds: secs, Output: o, All: map[string]string{solvers[0].name + "(qf-relaxed)": v}}
+			}
+			if v == "sat" {
+				relaxedModel = o
+			}
+		}
+	}
+	if goal.S == "false" && relaxedModel != "" && timeoutS > 3 {
+		timeoutS = 3 // a path-feasibility question with a candidate model in hand
+	}
+	res := solveFile(file, timeoutS, all)
+	if res.Verdict != "unsat" && relaxedModel != "" {
+		res.Output = "candidate model (quantifier-free relaxation, z3-new):\n" + relaxedModel + "\n--- full query output ---\n" + res.Output
+		res.Relaxed = relaxedModel
+	}
+	return res
 }
 
 func solveFile(file string, timeoutS int, all bool) SolverResult {
